@@ -781,6 +781,28 @@ def p_abs_diff_unsigned(ev, st, ctx):
     return T.ite(T.ult(a, b), T.sub(b, a), T.sub(a, b))
 
 
+@prim("re:core::slice::<impl \\[T\\]>::rotate_(left|right)")
+def p_slice_rotate(ev, st, ctx):
+    dst = as_slice(ev, st, ctx.args[0])
+    k = ctx.args[1]
+    if not (isinstance(k, T.T) and k.op == "const"):
+        raise Unsupported("slice rotate by a symbolic amount")
+    s0, n = win_const(dst)
+    inb = k.aux <= n
+    precondition(ev, st, ctx, "rotate: amount within the slice length", T.TRUE if inb else T.FALSE)
+    if not inb:
+        return NORETURN
+    left = (ctx.callee.get("rdef") or ctx.callee.get("def") or "").endswith("rotate_left")
+    arr = ev.load(st, Ref(dst.obj, dst.path))
+    vals = [arr.get(s0 + i) for i in range(n)]
+    m = k.aux if left else (n - k.aux)
+    vals = vals[m:] + vals[:m]
+    for i, v in enumerate(vals):
+        arr = arr.set(s0 + i, v)
+    ev.store(st, Ref(dst.obj, dst.path), arr)
+    return UNIT
+
+
 @prim("core::slice::<impl [T]>::copy_within")
 def p_copy_within(ev, st, ctx):
     dst = as_slice(ev, st, ctx.args[0])
@@ -1805,7 +1827,8 @@ def p_option_unwrap_or(ev, st, ctx):
     if isinstance(x, T.T) and isinstance(d, T.T):
         dd = tconst(v.discr)
         return T.ite(T.ne(dd, T.const(0, dd.w)), x, d)
-    raise Unsupported("Option::unwrap_or on a symbolic non-scalar")
+    dd = tconst(v.discr)
+    return ev.merge_values(T.ne(dd, T.const(0, dd.w)), x, d)
 
 
 @prim("core::num::NonZero::<T>::new")
